@@ -649,6 +649,26 @@ class Scripts:
                 self.emit('irq')
                 self.emit('#= idle')
 
+    def cad_events(self, n):
+        """C07: every CAD-done event the chip raises in CAD mode leads to exactly one cad callback - also when the
+        application has changed the mode in the meantime (its own timeout) or other flags are pending as well"""
+        r = self.rnd
+        for _ in range(n):
+            self.begin('cad')
+            self.prologue(LORA, rand_chip=r.random() < 0.5)
+            self.emit('env chip l 0x24 0')
+            for _ in range(r.randint(1, 5)):
+                self.emit('set_opmod 7 0x80')
+                det = r.choice([0, 1])
+                self.emit('env loraflags %d' % (4 | det | r.choice([0, 0, 0x80, 0x10])))
+                c = r.random()
+                if c < 0.35:
+                    self.emit('set_opmod %d 0x80' % r.choice([1, 5, 6, 0]))   # the application moved on before the handler ran
+                self.emit('irq')
+                self.emit('#= cad %d' % det)
+                self.emit('irq')
+                self.emit('#= idle')
+
     def lora_race(self, n):
         """C07: a chip-side event raised between any two SPI transfers of a running LoRa handler
         invocation: a second event of the same kind only after the acknowledgement write
@@ -689,6 +709,8 @@ class Scripts:
             fl = [r.randint(137000000, 1020000000) for _ in range(ln)]
             self.emit('lora_set_frequency_hopping %d %d %s' % (r.randint(1, 255), ln, ','.join(map(str, fl))))
             self.emit('#= hoplist %s' % ','.join(map(str, fl)))
+            if r.random() < 0.3:
+                self.emit('rehome')   # the application moves the handle struct to other storage and reuses the old one
             self.emit('set_opmod %d 0x80' % r.choice([5, 3]))
             for _ in range(r.randint(1, 5)):
                 hops = r.choice([0, 1, 2, ln - 1, ln, ln + 1, r.randint(0, min(2 * ln + 2, 300))])
@@ -900,6 +922,8 @@ class Scripts:
 
             eps = [ep_lora_rx, ep_lora_tx, ep_fsk_rx, ep_fsk_tx]
             for _ in range(r.randint(3, 8)):
+                if r.random() < 0.1:
+                    self.emit('rehome')
                 c = r.random()
                 if c < 0.15:
                     ep_config()
@@ -1257,6 +1281,21 @@ class Scripts:
                         calls.append('fsk_ook_tx_set_for_transmission_with_address %s 0x22' % hexp)
                     else:
                         calls.append('fsk_ook_tx_set_for_transmission %s' % hexp)
+                if r.random() < 0.08:
+                    # outside C04's hypotheses, for the correspondence only: the chip reports PacketSent while frame bytes
+                    # are still outstanding (its PayloadLength is shorter than the queued frame); no expectation attached
+                    self.emit('write_register 0x3f 0x10')
+                    self.emit('set_opmod 3 %d' % mod)
+                    self.emit('oncb tx set_opmod 1 %d' % mod)
+                    self.emit('fsk_ook_tx_set_for_transmission %s' % self.api.bytes_hex(r.randint(100, 200 if variable else min(200, maxlen_fixed))))
+                    for _ in range(r.choice([35, 40, 64])):
+                        self.emit('env txshift')
+                    self.emit('env txsent')
+                    self.emit('irq')
+                    self.emit('env chip f 0x3f 0')
+                    self.emit('set_opmod 1 %d' % mod)
+                    self.emit('write_register 0x3f 0x10')
+                    self.emit('dump')
                 pre = r.random()
                 if pre < 0.2:
                     # a transmission abandoned in the middle of a long frame comes first
@@ -1738,13 +1777,16 @@ class Scripts:
                 self.emit('env chip l 0x24 0')
                 self.emit('set_opmod 5 0x80')
                 for _ in range(3):
-                    data = self.api.bytes_hex(r.randint(1, 60))
-                    self.emit('env lorarx %d 0 %s' % (r.randint(0, 255), data))
-                    self.emit('irq !%d=%d' % (r.randint(0, 5), r.choice([1, 0x101])))
+                    la = r.randint(1, 60)
+                    data = self.api.bytes_hex(la)
+                    sa = r.randint(0, 255)
+                    self.emit('env lorarx %d 0 %s' % (sa, data))
+                    self.emit('irq !%d=%d' % (r.choice([0, 1, 2, 3, 4, 5, 5, 5]), r.choice([1, 0x101])))
                     self.emit('#= faulted')
                     self.emit('irq')
                     data = self.api.bytes_hex(r.randint(1, 60))
-                    self.emit('env lorarx %d 0 %s' % (r.randint(0, 255), data))
+                    # the next packet often lies right behind the one whose read failed (continuous reception)
+                    self.emit('env lorarx %d 0 %s' % ((sa + la) % 256 if r.random() < 0.6 else r.randint(0, 255), data))
                     self.emit('irq')
                     self.emit('#= lorarx 0 %s' % data)
                     # a reconfiguration whose first transfer fails reached neither the chip nor
